@@ -29,7 +29,7 @@ func verifAction(maxEventSize int, cutOff bool) *MultilineAction {
 const verifMetaFields = `"k8s_namespace":"ns","k8s_pod":"pod","k8s_container_id":"cid","k8s_container":"c"`
 
 // chunk texts (already JSON-escaped, as the container runtime writes them)
-var verifChunks = []string{`a`, `bc`, `\"q`, `d\\`, `\u00e9z`}
+var verifChunks = []string{`a`, `bc`, `\"q`, `d\\`, `\u00e9z`, `e\\n`} // the last one: a literal backslash followed by the letter n
 
 // C15.H2 / C13: the k8s multi-line action joins the partial chunks of one container log line.
 func VerifH_C15_k8sChunks() {
@@ -71,7 +71,16 @@ func VerifH_C15_k8sChunks() {
 		}
 		ev := &pipeline.Event{Root: root, Size: len(txt) + 10}
 		res := p.Do(ev)
+		fresh := run == "" // this chunk starts a new line (first one, after a line end or after a time-out)
 		run += txt
+		if maxSize != 0 && fresh && isEnd && len(txt)+3 < maxSize {
+			// a complete line that fits the limit is handed on as it is, whatever happened before it
+			vf.Assert(res == pipeline.ActionPass, "short-complete-line-passes-under-a-limit")
+			if res == pipeline.ActionPass {
+				vf.Assert(string(root.Dig("log").AppendEscapedString(nil)) == `"`+txt+`"`, "short-complete-line-unchanged-under-a-limit")
+			}
+			vf.Reach("short-line-under-limit")
+		}
 		if maxSize != 0 {
 			// with a size limit: only structural guarantees (exact cut positions are not modelled)
 			if res == pipeline.ActionPass {
